@@ -764,3 +764,60 @@ Proof.
     + rewrite He. reflexivity.
   - rewrite He. reflexivity.
 Qed.
+
+(* ================= one block of field lines = at most one event, whatever the lines are ================= *)
+(* the value of a `data:` line / the effect of an `event:` line, as SseDecoder::push reads them *)
+Definition line_data (l : str) : list str :=
+  match Sse.strip_prefix S_EVENT (trim_end_cr l) with
+  | Some _ => []
+  | None => match Sse.strip_prefix S_DATA (trim_end_cr l) with Some r => [trim_start r] | None => [] end
+  end.
+Definition line_event (ev : option str) (l : str) : option str :=
+  match Sse.strip_prefix S_EVENT (trim_end_cr l) with
+  | Some r => match trim r with [] => None | v => Some v end
+  | None => ev
+  end.
+Definition block_data (block : list str) : list str := flat_map line_data block.
+Definition block_event (ev0 : option str) (block : list str) : option str := fold_left line_event block ev0.
+(* a line that ends a block: empty once the trailing CRs are gone *)
+Definition is_blank (l : str) : bool := match trim_end_cr l with [] => true | _ => false end.
+
+Lemma line_step_nonblank cl ev acc l : is_blank l = false ->
+  line_step cl (ev, acc) l = ((line_event ev l, acc ++ line_data l), []).
+Proof.
+  unfold is_blank, line_step, line_event, line_data. intros H.
+  destruct (trim_end_cr l) as [|c t] eqn:E; [discriminate|].
+  destruct (Sse.strip_prefix S_EVENT (c :: t)) as [r|].
+  - cbn [fst snd]. rewrite app_nil_r. destruct (trim r); reflexivity.
+  - destruct (Sse.strip_prefix S_DATA (c :: t)) as [r|]; cbn [fst snd]; [reflexivity|rewrite app_nil_r; reflexivity].
+Qed.
+
+(* a block (no blank line inside) followed by the blank line: one event iff the block has a data line (or data was
+   pending), with payload = the '\n'-join of ALL its data values in order and the last event name given; comments,
+   unknown fields, CR line ends and the blanks after the colon do not matter *)
+Theorem block_dispatch cl block : forall ev0 acc,
+  forallb (fun l => negb (is_blank l)) block = true ->
+  fold_lines cl (ev0, acc) (block ++ [[]]) =
+  match acc ++ block_data block with
+  | [] => ((block_event ev0 block, []), [])
+  | d => ((None, []), [parse_event cl (block_event ev0 block) (join_nl d)])
+  end.
+Proof.
+  induction block as [|l block IH]; intros ev0 acc H.
+  - cbn [app fold_lines block_data flat_map block_event fold_left]. rewrite app_nil_r.
+    unfold line_step. change (trim_end_cr []) with (@nil N). cbn [Sse.strip_prefix S_EVENT S_DATA fst snd].
+    destruct acc; reflexivity.
+  - cbn [forallb] in H. apply andb_true_iff in H as [H1 H2]. apply negb_true_iff in H1.
+    cbn [app fold_lines]. rewrite (line_step_nonblank cl ev0 acc l H1).
+    rewrite (IH (line_event ev0 l) (acc ++ line_data l) H2).
+    cbn [block_data flat_map block_event fold_left]. rewrite <- app_assoc.
+    fold (block_data block). fold (block_event (line_event ev0 l) block).
+    destruct (acc ++ line_data l ++ block_data block); reflexivity.
+Qed.
+
+Definition demo_block : list str := [[58; 32; 99; 13]; [101; 118; 101; 110; 116; 58; 32; 32; 101; 32; 32]; [100; 97; 116; 97; 58; 120]; [105; 100; 58; 32; 49]; [100; 97; 116; 97; 58; 32; 32; 32; 121; 13; 13]].
+Lemma demo_block_event :
+  forallb (fun l => negb (is_blank l)) demo_block = true
+  /\ block_data demo_block = [[120]; [121]] /\ block_event None demo_block = Some [101]
+  /\ snd (fold_lines cls0 (None, []) (demo_block ++ [[]])) = [parse_event cls0 (Some [101]) [120; 10; 121]].
+Proof. vm_compute. repeat split. Qed.
